@@ -179,7 +179,8 @@ void Fd::setCloseOnExec() const
     int old_flags = fcntl(detail_->fd, F_GETFD, 0);
     int new_flags = old_flags | FD_CLOEXEC;
     if (new_flags != old_flags) {
-        int ret = fcntl(detail_->fd, F_SETFL, new_flags);
+        //! descriptor flags are set with F_SETFD (F_SETFL would replace the status flags and clear O_NONBLOCK)
+        int ret = fcntl(detail_->fd, F_SETFD, new_flags);
         if (ret == -1)
             LogErr("fcntl error, errno:%d", errno);
     }
